@@ -10,7 +10,7 @@ FILES = ["src/stereomolgraph/experimental.py", "src/stereomolgraph/stereodescrip
 FUNCTIONS = ["JSONHandler.as_dict", "JSONHandler.json_serialize", "JSONHandler.json_deserialize", "JSONHandler._stereo_from_payload"]
 BOUNDS = {"quick": "all four classes: small family over {0,1,2} (formed / broken / fleeting roles, descriptors of class Tet/SP/PlanarBond/AtropBond with placeholders and "
                    "unspecified parity, every listed combination of broken / formed / fleeting stereo changes) and templates for every descriptor class; "
-                   "identifier variants: as built, shifted to negative / zero / 2^40",
+                   "identifier variants: as built, shifted to negative / zero / 2^40; identifier sets that differ in one identifier of equal CPython hash (-1 / -2, 0 / 2^61-1); the loaded graph is edited and the same text loaded again",
           "thorough": "all decorations; templates star5, star6, twocentre"}
 OUTSIDE = "attributes other than element and reaction role (not part of the property); graphs larger than the bounds"
 ASSUMPTIONS = ["json is a C extension: graphs are concrete when serialised (engine A-sel)"]
